@@ -254,7 +254,7 @@ func intdataMain(mode string, a args) {
 						}
 					}
 					for _, k := range sortedInts(seen) {
-						as = append(as, k, 1+r.Intn(3))
+						as = append(as, k, r.Intn(5)-1) // -1..3: entries with the value 0 (and below) exist as well
 					}
 					op = idOp{Op: "NewIntMap", Args: as}
 				case x < 9:
